@@ -159,7 +159,7 @@ func genPreProposals(u *hist.U, p sim.Params, pool []string) []sim.PreProposal {
 			case 2:
 				fund(pp.Proposer, big.NewInt(1)) // a second record of the same funder: the import adds them up
 			}
-			pp.FundingDL = int64(u.N(4, "pre-fdl")) // 0: the funding period ended with the old chain
+			pp.FundingDL = int64(u.N(6, "pre-fdl")) // 0: the funding period ended with the old chain (a goal met before block 3 finds no active validators to snapshot)
 			pp.VotingDL = pp.FundingDL + p.PropVotingDL
 		default:
 			fund(pp.Proposer, initial)
